@@ -358,7 +358,10 @@ def run_model(opsfile, log, timeout=3000):
     exe = os.path.join(LEAN, ".lake", "build", "bin", "icemodel")
     with open(opsfile) as f:
         rc, out = sh([exe], stdin=f, timeout=timeout)
-    res = {"rc": rc, "mismatches": [], "monitor": [], "lines": 0, "raw_tail": out[-2000:]}
+    # "inconclusive": lines on which a bounded acceptance search of the driver gave up (`INCONCLUSIVE\t<component>\t
+    # <line>\t<reason>`): never part of the verdict (the model has no opinion there, the monitor still judged the
+    # line) — only counted
+    res = {"rc": rc, "mismatches": [], "monitor": [], "inconclusive": [], "lines": 0, "raw_tail": out[-2000:]}
     for ln in out.split("\n"):
         if ln.startswith("MISMATCH\t"):
             p = ln.split("\t")
@@ -366,6 +369,10 @@ def run_model(opsfile, log, timeout=3000):
         elif ln.startswith("MONITOR\t"):
             p = ln.split("\t")
             res["monitor"].append({"prop": p[1], "line": int(p[2]), "op": p[3], "impl": p[4][5:], "reason": p[5] if len(p) > 5 else ""})
+        elif ln.startswith("INCONCLUSIVE\t"):
+            p = ln.split("\t")
+            res["inconclusive"].append({"component": p[1] if len(p) > 1 else "", "line": int(p[2]) if len(p) > 2 and p[2].isdigit() else 0,
+                                        "reason": p[3] if len(p) > 3 else ""})
         elif ln.startswith("DONE "):
             m = re.search(r"lines=(\d+)", ln)
             res["lines"] = int(m.group(1)) if m else 0
